@@ -27,6 +27,8 @@ class QiskitExporter(QCircuitExporter):
 
         for g, w, p in _selfqc.gates:
             g_name = g.__class__.__name__.lower()
+            if g_name == "i":
+                g_name = "id"
 
             if isinstance(g, gates.MCX) or (
                 isinstance(g, gates.MCtrl) and isinstance(g.gate, gates.X)
